@@ -1,7 +1,28 @@
-from .. import deductive
+import time
+from .. import deductive, frontend
+from ..deductive import FunctionReport
 from ..contracts import synth as K
+from ..vc import frames
+from . import C13
+
+GM, F = 'src/mbi/graphical_model.py', 'src/mbi/factor.py'
+# synthetic_col rescales the projected marginal in place (`counts *= total / counts.sum()`): that array must be private to the
+# call, or one synthetic_data call corrupts the model (its cached marginals) for every later one.
+FRESH = [x for x in C13.RETURNS_FRESH if x[1] in ('GraphicalModel.project', 'Factor.project', 'Factor.sum', 'Factor.transpose', 'Factor.datavector',
+                                                   'variable_elimination_logspace', 'Factor.exp')]
 
 
 def run(tier):
-    return [deductive.verify_function(rel, q, c, hooks=K.SynthHooks(), module_env=c['module_env'], prefix='%s::%s[%s]' % (rel, q, label))
+    reps = [deductive.verify_function(rel, q, c, hooks=K.SynthHooks(), module_env=c['module_env'], prefix='%s::%s[%s]' % (rel, q, label))
             for rel, q, c, label in K.ITEMS]
+    t0 = time.time()
+    r = FunctionReport(GM, 'GraphicalModel.synthetic_data [in-place updates only touch arrays private to the call]')
+    try:
+        ow = frames.Ownership(GM, 'GraphicalModel.synthetic_data')
+        r.obligations = ow.run()
+        r.sha = ow.sha
+    except frontend.MissingAnchor as e:
+        r.undecided = 'anchor missing: %s' % e
+    r.seconds = time.time() - t0
+    r.vacuity = []
+    return reps + [r] + C13.returns_fresh_reports(FRESH)
